@@ -40,8 +40,8 @@ DERIVED = {
 SEEDABLE_PRIVATE = {"_BaseSeedable__random_state": "random_state", "_BaseSeedable__random_generator": "random_generator.bit_generator.state"}
 OK_SAVE_WRAPPERS = (re.compile(r"^id$"), re.compile(r"^tolist$"), re.compile(r"^id dtype=('float64'|np\.float64|float)$"),
                     re.compile(r"^\[\(?:, (\w+)\)?\] for \1 in range\((\w+)\.shape\[1\]\)$"))
-OK_LOAD_WRAPPERS = (re.compile(r"^id$"), re.compile(r"^T\(vstack\[id for (\w+) in range\(len\(cp\['parameters_precision'\]\)\)\]\)$"),
-                    re.compile(r"^T\(vstack\[id for (\w+) in range\(len\(cp\['parameters_bounds'\]\[[01]\]\)\)\]\)$"))
+OK_LOAD_WRAPPERS = (re.compile(r"^id$"), re.compile(r"^T\(vstack\[id for (\w+) in range\(len\(\w+\['parameters_precision'\]\)\)\]\)$"),
+                    re.compile(r"^T\(vstack\[id for (\w+) in range\(len\(\w+\['parameters_bounds'\]\[[01]\]\)\)\]\)$"))
 UNPICKLABLE = {"threading.Thread": "thread", "threading.Lock": "lock", "threading.RLock": "lock", "threading.Event": "event",
                "threading.Condition": "condition", "threading.Semaphore": "semaphore", "queue.Queue": "queue", "queue.SimpleQueue": "queue",
                "queue.LifoQueue": "queue", "queue.PriorityQueue": "queue", "sqlite3.Connection": "connection", "sqlite3.Cursor": "cursor",
@@ -295,19 +295,51 @@ def r2_sqlite(ctx: Context) -> None:
     ctx.check(ok, "R2.sqlite-columns", "sqlite3:bound-values", f"{len(cols['insert'])} values bound to {len(cols['insert'])} placeholders",
               f"{len(bound.elts) if isinstance(bound, (ast.Tuple, ast.List)) else '?'} bound values for {len(cols['insert'])} columns", save, execs[0])
     env = single_assignment_env(save.node)
+    params = save.params[1:]  # without the path
+
+    def root_param(e: ast.expr, depth: int = 0) -> str | None:
+        r = _root_name(e)
+        if r is None or depth > 4:
+            return None
+        if r in save.params:
+            return r
+        if r in env:
+            return root_param(env[r], depth + 1)
+        return None
+
     if ok:
-        for col, e in zip(cols["insert"], bound.elts):
-            root = _root_name(e)
-            good = root == col or (root, col) in RENAMES
-            ctx.check(good, "R2.sqlite-alignment", f"sqlite3:insert:{col}", f"column {col} <- {src(e)[:40]}", f"column {col} is bound to `{src(e)[:60]}` (positions shifted or swapped)", save, e)
+        ctx.check(len(params) == len(cols["insert"]), "R2.sqlite-columns", "sqlite3:param-arity", "one save parameter per column", f"{len(params)} parameters for {len(cols['insert'])} columns", save, save.node)
+        for i, (col, e) in enumerate(zip(cols["insert"], bound.elts)):
+            rp = root_param(e)
+            good = i < len(params) and rp == params[i]
+            ctx.check(good, "R2.sqlite-alignment", f"sqlite3:insert:{col}", f"column {col} (position {i}) <- save parameter {params[i] if i < len(params) else '?'}",
+                      f"column {col} (position {i}) is bound to `{src(e)[:60]}`, which carries parameter `{rp}` instead of `{params[i] if i < len(params) else '?'}` (positions shifted or swapped)", save, e)
     load = ctx.func(f"{SQL}:load_calibrator_state")
-    unpack = [s for s in walk_scope(load.node) if isinstance(s, ast.Assign) and isinstance(s.targets[0], ast.Tuple) and "SQL_LOAD_QUERY" in src(s.value)]
+    unpack = [s_ for s_ in walk_scope(load.node) if isinstance(s_, ast.Assign) and isinstance(s_.targets[0], ast.Tuple) and "SQL_LOAD_QUERY" in src(s_.value)]
     ctx.floor("R2", "SELECT unpacking in the SQLite load", len(unpack), 1)
     names = [src(t) for t in unpack[0].targets[0].elts]
     ctx.check(len(names) == len(cols["select"]), "R2.sqlite-columns", "sqlite3:select-arity", "one target per selected column", f"{len(names)} targets for {len(cols['select'])} columns", load, unpack[0])
-    for col, nm in zip(cols["select"], names):
-        good = nm == col or (nm, col) in RENAMES or (nm, col) in {("saving_file", "saving_folder")}
-        ctx.check(good, "R2.sqlite-alignment", f"sqlite3:select:{col}", f"{nm} <- column {col}", f"column {col} is unpacked into `{nm}` (positions shifted or swapped)", load, unpack[0])
+    lenv = single_assignment_env(load.node)
+    rets = [r for r in walk_scope(load.node) if isinstance(r, ast.Return) and isinstance(r.value, ast.Tuple)]
+    ctx.floor("R2", "returned tuple of the SQLite load", len(rets), 1)
+
+    def root_target(e: ast.expr, depth: int = 0) -> str | None:
+        r = _root_name(e)
+        if r is None or depth > 4:
+            return None
+        if r in names:
+            return r
+        if r in lenv:
+            return root_target(lenv[r], depth + 1)
+        return None
+
+    elts = rets[0].value.elts
+    ctx.check(len(elts) == len(names), "R2.sqlite-columns", "sqlite3:return-arity", "the load returns one element per column", f"{len(elts)} returned elements for {len(names)} columns", load, rets[0])
+    for i, (col, e) in enumerate(zip(cols["select"], elts)):
+        rt = root_target(e)
+        good = i < len(names) and rt == names[i]
+        ctx.check(good, "R2.sqlite-alignment", f"sqlite3:select:{col}", f"returned element {i} carries column {col}",
+                  f"returned element {i} is `{src(e)[:50]}`, which carries the value of column {cols['select'][names.index(rt)] if rt in names else '?'} instead of {col} (positions shifted or swapped)", load, e)
 
 
 # ---------------------------------------------------------------------------------------------- R3
